@@ -75,6 +75,34 @@ def schema_names(case, b):
     return [n for n, _ in case.ast] if case.ast else []
 
 
+def select_cycle_in_text(text):
+    """for inputs that come as text only (corpus, replays): selects lying on a cycle of 'has as item — looking through one
+    LIST/SET/BAG/ARRAY OF level — the select' (the relation exp2cxx's checkItem follows)"""
+    t = re.sub(r"\(\*.*?\*\)", " ", text, flags=re.S).lower()
+    sel = {m.group(1): [x.strip() for x in m.group(2).split(",")] for m in re.finditer(r"type\s+(\w+)\s*=\s*select\s*\(([^)]*)\)", t)}
+    agg = {m.group(1): m.group(2) for m in re.finditer(r"type\s+(\w+)\s*=\s*(?:list|set|bag|array)\b[^;]*?\bof\s+(?:optional\s+|unique\s+)*(\w+)\s*;", t)}
+    ren = {m.group(1): m.group(2) for m in re.finditer(r"type\s+(\w+)\s*=\s*(\w+)\s*;", t) if m.group(2) not in ("select", "enumeration")}
+    def members(n):
+        out = []
+        for it in sel.get(n, []):
+            it = agg.get(it, it)
+            while it in ren and it not in sel:
+                it = ren[it]
+            if it in sel:
+                out.append(it)
+        return out
+    cyc = []
+    for n in sel:
+        seen, todo = set(), members(n)
+        while todo:
+            m = todo.pop()
+            if m == n:
+                cyc.append(n); break
+            if m not in seen:
+                seen.add(m); todo += members(m)
+    return sorted(cyc)
+
+
 def make_short_name(path, long_name):
     """schemaScanner.cc makeShortName(), used by the oracle only to decide whether two schemas of a file are *meant* to
     collide (the Lean model has its own, tied by the byte comparison of CMakeLists.txt)"""
@@ -467,7 +495,7 @@ def examine(ctx, b, case, model_exe, idx):
         who = "schema_scanner exits 0 and writes a build description, exp2cxx fails" if res["sc_rc"] == 0 else "exp2cxx exits 0, schema_scanner fails"
         key = "acceptance-mismatch:" + ("scanner-only" if res["sc_rc"] == 0 else "generator-only")
         if res["cx_rc"] == "timeout":
-            cyc = SG.select_cycle_in(case.gen) if case.gen is not None else []
+            cyc = SG.select_cycle_in(case.gen) if case.gen is not None else select_cycle_in_text(case.text or "")
             # decided from the schema: the known shape is selects containing each other (through aggregates) in a circle
             key = "exp2cxx-does-not-terminate:" + ("select-cycle-through-aggregates" if cyc else "other")
             who = (f"schema_scanner exits 0 and writes a build description; exp2cxx does not terminate"
